@@ -129,8 +129,20 @@ def c12_struct(tier="quick", seed=0):
     out.append(ob("C12.struct.eval-fresh-vm", fresh in ev or (via_nested and fresh in nv0), "K3", "Context.eval builds a fresh VM (directly or through _nested_vm)"))
     out.append(ob("C12.struct.eval-shares-globals", "vm.globals = self._globals" in ev or (via_nested and "vm.globals = self._globals" in nv0), "K3",
                   "the VM's globals are the context's dictionary (identity)"))
-    restores = ("finally:\n        self._current_vm = None" in ev
-                or ("outer_vm = self._current_vm" in ev and "finally:\n        self._current_vm = outer_vm" in ev))
+    # (by syntax tree, not by text: the names of the locals are the maintainer's business)
+    evf = S.fn("microjs.context", "Context.eval")
+    restores = False
+    for t_ in ast.walk(evf):
+        if isinstance(t_, ast.Try) and t_.finalbody:
+            for st in t_.finalbody:
+                if isinstance(st, ast.Assign) and len(st.targets) == 1 and isinstance(st.targets[0], ast.Attribute) and st.targets[0].attr == "_current_vm":
+                    v = st.value
+                    if isinstance(v, ast.Constant) and v.value is None:
+                        restores = True
+                    elif isinstance(v, ast.Name):
+                        saved = [n for n in ast.walk(evf) if isinstance(n, ast.Assign) and len(n.targets) == 1 and isinstance(n.targets[0], ast.Name) and n.targets[0].id == v.id
+                                 and isinstance(n.value, ast.Attribute) and n.value.attr == "_current_vm" and n.lineno < t_.lineno]
+                        restores = len(saved) == 1
     out.append(ob("C12.struct.eval-resets-current-vm", restores, "K3", "_current_vm is put back (to None, or to the evaluation that called the host function) on every exit of eval"))
     nv = _S_.unparse(S.fn("microjs.context", "Context._nested_vm"))
     out.append(ob("C12.struct.nested-shares-globals", "vm.globals = self._globals" in nv, "K3", "nested eval / Function / comparators share the same dictionary"))
